@@ -92,10 +92,10 @@ def _guard(T, tag, thunk):
         T.check(f"{tag}:!exception", False, f"{type(e).__name__}: {e}"[:300])
 
 
-def case_eigh(T, n, ks, algs):
+def case_eigh(T, n, ks, algs, complex_=False):
     from cola.linalg.unary.unary import Eigh
-    dt = 'float64'
-    V = K.cayley2_symbolic(T, "t") if n == 2 else K.basis(T, n, 0, False, dt)
+    dt = 'complex128' if complex_ else 'float64'
+    V = K.basis(T, n, 0, True, dt) if complex_ else (K.cayley2_symbolic(T, "t") if n == 2 else K.basis(T, n, 0, False, dt))
     w = [T.var("w0")]
     for i in range(1, n):
         g = T.var(f"gap{i}", positive=True)
@@ -105,10 +105,10 @@ def case_eigh(T, n, ks, algs):
         for j in range(i):
             T.assume(w[i] + w[j] != 0) if False else None
     z = K.S(T, 0)
-    A = V @ K.mat(T, [[w[i] if i == j else z for j in range(n)] for i in range(n)], dt) @ V.T
+    A = V @ K.mat(T, [[w[i] if i == j else z for j in range(n)] for i in range(n)], dt) @ np.conjugate(V).T
     if T.sym:
         from symx import lapack
-        lapack.register("eigh", K.raw(T, A), (K.raw(T, K.mat(T, [w], dt))[0], K.raw(T, V)))
+        lapack.register("eigh", K.raw(T, A), (K.raw(T, K.mat(T, [w], 'float64'))[0], K.raw(T, V)))
     Aop = cola.SelfAdjoint(ops.Dense(A))
     E_ = _eigs()
     for an in algs:
@@ -155,6 +155,46 @@ def case_eig_general(T, perm, ks):
             def run():
                 vals, vecs = E_.eig(Aop, k, which, Eig())
                 check_pairs(T, tag, A, vals, vecs, w, k, which, False)
+
+            _guard(T, tag, run)
+
+
+def case_eig_complex_pair(T, perm, ks):
+    """real A = P blockdiag([[a, b], [-b, a]], c) P^-1: spectrum {a + ib, a - ib, c}; LAPACK returns it in the order `perm`"""
+    from cola.linalg.unary.unary import Eig
+    dt = 'float64'
+    n = 3
+    Pm = K.mat(T, [[K.S(T, 1), K.S(T, 2), K.S(T, 0)], [K.S(T, 1), K.S(T, 3), K.S(T, 1)], [K.S(T, 0), K.S(T, 1), K.S(T, 2)]], dt)
+    Pinv = K.arr(T, K.raw(T, K.exact_solve(T, Pm, K.eye_like(T, n, dt))), dt)
+    a, b, c = T.var("a"), T.var("b", positive=True), T.var("c")
+    T.assume(b >= 1e-2)
+    d = a * a + b * b - c * c
+    T.assume(d * d >= 1e-4)
+    z = K.S(T, 0)
+    A = Pm @ K.mat(T, [[a, b, z], [-b, a, z], [z, z, c]], dt) @ Pinv
+    if T.sym:
+        from symx.core import Sym
+        from symx.terms import Rat
+        I_ = Sym(Rat.const(0), Rat.const(1))
+        lam = [a + I_ * b, a - I_ * b, c + 0 * I_]
+        E3 = np.empty((3, 3), dtype=object)
+        for i, row in enumerate([[K.S(T, 1), K.S(T, 1), z], [I_, -I_, z], [z, z, K.S(T, 1)]]):
+            for j, x in enumerate(row):
+                E3[i, j] = x
+        Vc = K.raw(T, Pm) @ E3
+        from symx import lapack
+        lapack.register("eig", K.raw(T, A), (np.array([lam[i] for i in perm], dtype=object), Vc[:, perm]))
+    else:
+        lam = [complex(a, b), complex(a, -b), complex(c, 0)]
+    Aop = ops.Dense(A)
+    E_ = _eigs()
+    for k in ks:
+        for which in ("LM", "SM"):
+            tag = f"eig(k={k},{which},Eig)"
+
+            def run():
+                vals, vecs = E_.eig(Aop, k, which, Eig())
+                check_pairs(T, tag, A, vals, vecs, lam, k, which, False)
 
             _guard(T, tag, run)
 
@@ -289,6 +329,10 @@ def cases(tier, seed):
     out = []
     out.append(("eigh:n2", case_eigh, dict(n=2, ks=[1, 2], algs=["Eigh", "Auto"])))
     out.append(("eigh:n3", case_eigh, dict(n=3, ks=[1, 2, 3], algs=["Eigh"])))
+    out.append(("eigh-complex:n2", case_eigh, dict(n=2, ks=[1, 2], algs=["Eigh", "Auto"], complex_=True)))
+    out.append(("eigh-complex:n3", case_eigh, dict(n=3, ks=[1, 3], algs=["Eigh"], complex_=True)))
+    for perm in ((0, 1, 2), (2, 0, 1), (1, 2, 0)):
+        out.append((f"eig-complex-pair:order{''.join(map(str, perm))}", case_eig_complex_pair, dict(perm=list(perm), ks=[1, 2, 3])))
     for perm in itertools.permutations(range(3)):
         out.append((f"eig-general:order{''.join(map(str, perm))}", case_eig_general, dict(perm=list(perm), ks=[1, 2, 3])))
     for kind in ("identity", "diag", "tri-lower", "tri-upper"):
